@@ -733,6 +733,10 @@ func PhytoOut(g *GlobalVarsMain, l *CropSharedVars, hPath *HFilePath, zeit int, 
 		} else {
 			g.NFIX = DTGESN - SUMPE
 		}
+		// the uptake from the soil can exceed the demand when a layer's negative diffusion share is cut off at zero
+		if g.NFIX < 0 {
+			g.NFIX = 0
+		}
 	} else {
 		g.NFIX = 0
 	}
